@@ -288,6 +288,12 @@ func Scalar(r *mon.Rng) *ScalarCase {
 				if k > 0 {
 					addProbe(model.VNumber("1" + strings.Repeat("0", k-1) + "1" + "e-" + strconv.Itoa(k)))
 					addProbe(model.VNumber("0.1" + strings.Repeat("0", k-1) + "1" + "E1"))
+					// k fractional digits in the value, written as an integer part ending in zeros, a
+					// fraction of zeros only and a negative exponent (15 = 150.0e-1, 1.5 = 1500.00e-3)
+					addProbe(model.VNumber("1" + strings.Repeat("0", k-1) + "10.0e-" + strconv.Itoa(k+1)))
+					addProbe(model.VNumber("1" + strings.Repeat("0", k-1) + "100.00E-" + strconv.Itoa(k+2)))
+					addProbe(model.VNumber("100.0e-2"))
+					addProbe(model.VNumber("0.0e-" + strconv.Itoa(k)))
 				}
 			}
 		} else if r.Chance(1, 4) {
